@@ -7,8 +7,8 @@ Local Open Scope string_scope.
 Local Open Scope list_scope.
 
 (* A successful load implies: every species block names exactly one node of the tree and it is a leaf;
-   every geneRef, at any depth, names a declared gene; no orthologGroup, at any depth, is without a
-   member (item_ok). *)
+   every geneRef, at any depth, names a declared gene; no orthologGroup and no paralogGroup, at any
+   depth, is without a member (item_ok; paralogGroups since the repair of finding F9). *)
 Theorem c20_success_means_sound : forall t d l,
   load t d = Ok l ->
   (forall sp, In sp (d_species d) -> exists p, species_resolves t sp p) /\
@@ -23,7 +23,7 @@ Qed.
 Print Assumptions c20_success_means_sound.
 
 (* Equivalently: an unknown species, an internal node named as species (or an ambiguous name), a
-   geneRef to an undeclared gene, or an empty orthologGroup - wherever it occurs - makes the load
+   geneRef to an undeclared gene, or an empty orthologGroup or paralogGroup - wherever it occurs - makes the load
    return an error; no partially built analysis is returned (the result is Err, not a state). *)
 Theorem c20_rejects : forall t d,
   (exists sp, In sp (d_species d) /\ forall p, ~ species_resolves t sp p) \/
@@ -51,7 +51,8 @@ Example c20_nonvacuous :
   load tr (mk "E" [IOG (Some "f") None [IGene "h1" None; IGene "h2" None]]) = Err TypeError /\
   load tr (mk "H" [IOG (Some "f") None [IGene "h1" None; IGene "zz" None]]) = Err KeyError /\
   load tr (mk "H" [IOG (Some "f") None [IGene "h1" None; IOG (Some "g") None [IProp "a" "b"]]]) = Err ValueError /\
-  load tr (mk "H" [IOG (Some "f") None [IGene "h1" None; IPG None []]]) = Err IndexError.
+  load tr (mk "H" [IOG (Some "f") None [IGene "h1" None; IPG None []]]) = Err ValueError /\
+  load tr (mk "H" [IOG (Some "f") None [IPG None [IGene "h1" None; IGene "h2" None; IPG None []]]]) = Err ValueError.
 Proof. vm_compute. repeat split; try reflexivity. eexists. reflexivity. Qed.
 
 (* ---------- species_resolve_mode="OMA" (Oma.v) ---------- *)
